@@ -19,7 +19,7 @@ def run(ctx):
     res = tlc.run(MODULE, cfg, ctx.outdir, workers=8, coverage=True)
     ctx.add_tlc(res, "Noise_MC MaxOps=%d" % ops, "M")
     ctx.tlc_violation(res, MODULE, "Noise_MC")
-    for a in ("NoiseStep", "AddNoiseFromObs", "ZeroData", "AddSignal", "QuerySnr", "StreamAddNoise", "BgAddNoise", "StreamAddSource", "StreamUpdateNoise", "BgAddSource", "BgUpdateNoise"):
+    for a in ("NoiseStep", "AddNoiseFromObs", "AddNoiseFromObsRefused", "ZeroData", "AddSignal", "QuerySnr", "StreamAddNoise", "BgAddNoise", "StreamAddSource", "StreamUpdateNoise", "BgAddSource", "BgUpdateNoise"):
         if res.coverage.get(a, (0, 0))[1] == 0:
             raise RuntimeError("vacuity: action %s never taken" % a)
     depth, num = ctx.pick(7, 9), ctx.pick(280, 6000)
